@@ -1,0 +1,56 @@
+//go:build verif
+
+package staking
+
+// Verification hooks for property C05 (double-sign evidence acceptance and penalty distribution).
+// Nothing here changes behaviour: the functions only expose the unexported evidence pool and the
+// unexported processEvidences / takePenalty to the external harness under the `verif` build tag.
+
+import (
+	"math/big"
+
+	"github.com/youchainhq/go-youchain/common"
+	"github.com/youchainhq/go-youchain/core/state"
+	"github.com/youchainhq/go-youchain/core/types"
+	"github.com/youchainhq/go-youchain/params"
+)
+
+// VerifAddEvidence appends an evidence to the module's pool exactly as the event loop of Start does.
+func (s *Staking) VerifAddEvidence(e Evidence) {
+	s.mutex.Lock()
+	s.evidences = append(s.evidences, e)
+	s.mutex.Unlock()
+}
+
+// VerifPoolEvidences returns a copy of the module's evidence pool.
+func (s *Staking) VerifPoolEvidences() []Evidence {
+	s.mutex.Lock()
+	defer s.mutex.Unlock()
+	out := make([]Evidence, len(s.evidences))
+	copy(out, s.evidences)
+	return out
+}
+
+// VerifClearPool empties the evidence pool.
+func (s *Staking) VerifClearPool() {
+	s.mutex.Lock()
+	s.evidences = nil
+	s.mutex.Unlock()
+}
+
+// VerifProcessEvidences runs the real processEvidences (the function shared by slashing and
+// replaySlashing) on the given state and returns its three result lists and the receipt logs it appended.
+func (s *Staking) VerifProcessEvidences(config *params.YouParams, db *state.StateDB, header *types.Header, parentHeight uint64, evidences []Evidence) (confirmed, pending []Evidence, affected []common.Address, logs []*types.Log) {
+	receipt := types.NewReceipt([]byte{}, false, 0)
+	c, p, a := s.processEvidences(config, db, header, new(big.Int).SetUint64(parentHeight), receipt, evidences)
+	for _, x := range a {
+		affected = append(affected, *x)
+	}
+	return c, p, affected, receipt.Logs
+}
+
+// VerifTakePenalty runs the real takePenalty. It returns the new validator record (not yet stored),
+// the total taken and the two record lists that go into the slashing log.
+func VerifTakePenalty(db *state.StateDB, val *state.Validator, penaltyAmount *big.Int) (*state.Validator, *big.Int, []*SlashWithdrawRecord, []*PenaltyRecord) {
+	return takePenalty(db, val, penaltyAmount)
+}
